@@ -215,6 +215,233 @@ pub fn views(fam: &str, b: &[u8]) -> Option<String> {
     }
 }
 
+
+// ---------------------------------------------------------------------------
+// cross-type comparison impls (C07/C08) and comparison with plain text (C14)
+
+fn ob(o: Option<std::cmp::Ordering>) -> i8 {
+    match o {
+        Some(std::cmp::Ordering::Less) => -1,
+        Some(std::cmp::Ordering::Equal) => 0,
+        Some(std::cmp::Ordering::Greater) => 1,
+        None => 9,
+    }
+}
+
+/// record `got` against the same-type result `want`
+macro_rules! chk {
+    ($bad:ident, $want:expr, $name:expr, $got:expr) => {
+        if ($got) != ($want) {
+            $bad.push($name);
+        }
+    };
+}
+
+/// `cross FAM x y`: every provided `==` / `partial_cmp` between the reference type, the full type
+/// and their owned forms must agree with `Ref == Ref` / `Ref.cmp(Ref)` on the same two texts.
+macro_rules! cross_fam {
+    ($fname:ident, $Ri:ident, $RiBuf:ident, $Ref:ident, $RefBuf:ident, $conv:expr, $own:expr) => {
+        fn $fname(x: &[u8], y: &[u8]) -> Option<String> {
+            use std::borrow::Borrow;
+            let (ix, iy) = (($conv)(x)?, ($conv)(y)?);
+            let (Ok(rx), Ok(ry)) = (<$Ref>::new(ix), <$Ref>::new(iy)) else { return Some("invalid".into()) };
+            let e = *rx == *ry;
+            let c = ob(Some(rx.cmp(ry)));
+            let mut bad: Vec<&'static str> = Vec::new();
+            let (bx, by): ($RefBuf, $RefBuf) = (rx.to_owned(), ry.to_owned());
+            chk!(bad, e, "Ref==&Ref", *rx == ry);
+            chk!(bad, e, "Ref==RefBuf", *rx == by);
+            chk!(bad, e, "RefBuf==RefBuf", bx == by);
+            chk!(bad, e, "Ref!=Ref", !(*rx != *ry));
+            chk!(bad, c, "Ref<>Ref", ob(rx.partial_cmp(ry)));
+            chk!(bad, c, "Ref<>&Ref", ob((*rx).partial_cmp(&ry)));
+            chk!(bad, c, "Ref<>RefBuf", ob((*rx).partial_cmp(&by)));
+            chk!(bad, c, "RefBuf<>RefBuf", ob(bx.partial_cmp(&by)));
+            chk!(bad, c, "RefBuf.cmp", ob(Some(bx.cmp(&by))));
+            // the full type on the right
+            if let Ok(fy) = <$Ri>::new(iy) {
+                let fyb: $RiBuf = fy.to_owned();
+                chk!(bad, e, "Ref==Ri", *rx == *fy);
+                chk!(bad, e, "Ref==&Ri", *rx == fy);
+                chk!(bad, e, "Ref==RiBuf", *rx == fyb);
+                chk!(bad, e, "RefBuf==Ri", bx == *fy);
+                chk!(bad, e, "RefBuf==&Ri", bx == fy);
+                chk!(bad, e, "RefBuf==RiBuf", bx == fyb);
+                chk!(bad, c, "Ref<>Ri", ob((*rx).partial_cmp(fy)));
+                chk!(bad, c, "Ref<>&Ri", ob((*rx).partial_cmp(&fy)));
+                chk!(bad, c, "Ref<>RiBuf", ob((*rx).partial_cmp(&fyb)));
+                chk!(bad, c, "RefBuf<>Ri", ob(bx.partial_cmp(fy)));
+                chk!(bad, c, "RefBuf<>&Ri", ob(bx.partial_cmp(&fy)));
+                chk!(bad, c, "RefBuf<>RiBuf", ob(bx.partial_cmp(&fyb)));
+                let as_ref: &$Ref = fy.as_ref();
+                let bor: &$Ref = fy.borrow();
+                let borb: &$Ref = fyb.borrow();
+                chk!(bad, true, "Ri.as_ref/borrow text", as_ref.as_bytes() == y && bor.as_bytes() == y && borb.as_bytes() == y);
+            }
+            // the full type on the left
+            if let Ok(fx) = <$Ri>::new(ix) {
+                let fxb: $RiBuf = fx.to_owned();
+                chk!(bad, e, "Ri==Ref", *fx == *ry);
+                chk!(bad, e, "Ri==&Ref", *fx == ry);
+                chk!(bad, e, "Ri==RefBuf", *fx == by);
+                chk!(bad, e, "RiBuf==Ref", fxb == *ry);
+                chk!(bad, e, "RiBuf==&Ref", fxb == ry);
+                chk!(bad, e, "RiBuf==RefBuf", fxb == by);
+                chk!(bad, c, "Ri<>Ref", ob((*fx).partial_cmp(ry)));
+                chk!(bad, c, "Ri<>&Ref", ob((*fx).partial_cmp(&ry)));
+                chk!(bad, c, "Ri<>RefBuf", ob((*fx).partial_cmp(&by)));
+                chk!(bad, c, "RiBuf<>Ref", ob(fxb.partial_cmp(ry)));
+                chk!(bad, c, "RiBuf<>&Ref", ob(fxb.partial_cmp(&ry)));
+                chk!(bad, c, "RiBuf<>RefBuf", ob(fxb.partial_cmp(&by)));
+                if let Ok(fy) = <$Ri>::new(iy) {
+                    let fyb: $RiBuf = fy.to_owned();
+                    chk!(bad, e, "Ri==Ri", *fx == *fy);
+                    chk!(bad, e, "Ri==&Ri", *fx == fy);
+                    chk!(bad, e, "Ri==RiBuf", *fx == fyb);
+                    chk!(bad, e, "RiBuf==RiBuf", fxb == fyb);
+                    chk!(bad, c, "Ri<>Ri", ob((*fx).partial_cmp(fy)));
+                    chk!(bad, c, "Ri<>&Ri", ob((*fx).partial_cmp(&fy)));
+                    chk!(bad, c, "Ri<>RiBuf", ob((*fx).partial_cmp(&fyb)));
+                    chk!(bad, c, "RiBuf<>RiBuf", ob(fxb.partial_cmp(&fyb)));
+                    chk!(bad, c, "Ri.cmp", ob(Some(fx.cmp(fy))));
+                }
+            }
+            // components: partial_cmp agrees with cmp, reverse iteration of the normalised segments
+            let (px, py) = (rx.path(), ry.path());
+            chk!(bad, ob(Some(px.cmp(py))), "Path<>Path", ob(px.partial_cmp(py)));
+            let fw: Vec<Vec<u8>> = px.normalized_segments().map(|s| AsRef::<[u8]>::as_ref(s).to_vec()).collect();
+            let mut bw: Vec<Vec<u8>> = px.normalized_segments().rev().map(|s| AsRef::<[u8]>::as_ref(s).to_vec()).collect();
+            bw.reverse();
+            chk!(bad, true, "normalized_segments.rev", fw == bw);
+            if let (Some(ax), Some(ay)) = (rx.authority(), ry.authority()) {
+                chk!(bad, ob(Some(ax.cmp(ay))), "Authority<>", ob(ax.partial_cmp(ay)));
+                chk!(bad, ob(Some(ax.host().cmp(ay.host()))), "Host<>", ob(ax.host().partial_cmp(ay.host())));
+                if let (Some(ux), Some(uy)) = (ax.user_info(), ay.user_info()) {
+                    chk!(bad, ob(Some(ux.cmp(uy))), "UserInfo<>", ob(ux.partial_cmp(uy)));
+                }
+            }
+            if let (Some(qx), Some(qy)) = (rx.query(), ry.query()) {
+                chk!(bad, ob(Some(qx.cmp(qy))), "Query<>", ob(qx.partial_cmp(qy)));
+            }
+            if let (Some(gx), Some(gy)) = (rx.fragment(), ry.fragment()) {
+                chk!(bad, ob(Some(gx.cmp(gy))), "Fragment<>", ob(gx.partial_cmp(gy)));
+            }
+            if let (Some(sx), Some(sy)) = (px.first(), py.first()) {
+                chk!(bad, ob(Some(sx.cmp(sy))), "Segment<>", ob(sx.partial_cmp(sy)));
+            }
+            let _ = $own;
+            Some(format!("eq={} cmp={} cross={}", b01(e), c, if bad.is_empty() { "ok".to_string() } else { format!("BAD:{}", bad.join(",")) }))
+        }
+    };
+}
+cross_fam!(cross_u, Uri, UriBuf, UriRef, UriRefBuf, conv_u, 0);
+cross_fam!(cross_i, Iri, IriBuf, IriRef, IriRefBuf, conv_i, 0);
+
+/// comparisons of a value with plain text: `value == text` must be `value's text == text`
+macro_rules! str_cmp {
+    ($bad:ident, $v:expr, $s:expr, $want:expr) => {{
+        let s: &str = $s;
+        chk!($bad, $want, "==str", *$v == *s);
+        chk!($bad, $want, "==&str", *$v == s);
+        chk!($bad, $want, "==String", *$v == s.to_string());
+    }};
+}
+macro_rules! refstr_cmp {
+    ($bad:ident, $v:expr, $s:expr, $want:expr) => {{
+        let s: &str = $s;
+        chk!($bad, $want, "==&str", *$v == s);
+    }};
+}
+macro_rules! bytes_cmp {
+    ($bad:ident, $v:expr, $t:expr, $want:expr) => {{
+        let t: &[u8] = $t;
+        chk!($bad, $want, "==[u8]", *$v == *t);
+        chk!($bad, $want, "==&[u8]", *$v == t);
+        macro_rules! arr {
+            ($n:literal) => {
+                if let Ok(a) = <&[u8; $n]>::try_from(t) {
+                    chk!($bad, $want, "==[u8;N]", *$v == *a);
+                    chk!($bad, $want, "==&[u8;N]", *$v == a);
+                }
+            };
+        }
+        arr!(0); arr!(1); arr!(2); arr!(3); arr!(4); arr!(5); arr!(6); arr!(7); arr!(8);
+    }};
+}
+
+/// `streq KIND value other`: every provided comparison of the value with plain text / bytes
+pub fn streq(kind: &str, v: &[u8], t: &[u8]) -> Option<String> {
+    use iref::{iri, uri};
+    let want = v == t;
+    let mut bad: Vec<&'static str> = Vec::new();
+    let ts = std::str::from_utf8(t).ok();
+    let vs = std::str::from_utf8(v).ok();
+    macro_rules! ubytes {
+        ($B:ty, $O:ty) => {{
+            let Ok(x) = <$B>::new(v) else { return Some("invalid".into()) };
+            let o: $O = x.to_owned();
+            bytes_cmp!(bad, x, t, want);
+            bytes_cmp!(bad, &o, t, want);
+            if let Some(s) = ts {
+                str_cmp!(bad, x, s, want);
+                str_cmp!(bad, &o, s, want);
+            }
+        }};
+    }
+    macro_rules! istr {
+        ($B:ty, $O:ty) => {{
+            let Some(Ok(x)) = vs.map(<$B>::new) else { return Some("invalid".into()) };
+            let o: $O = x.to_owned();
+            if let Some(s) = ts {
+                str_cmp!(bad, x, s, want);
+                str_cmp!(bad, &o, s, want);
+            }
+        }};
+    }
+    macro_rules! ucomp {
+        ($B:ty) => {{
+            let Ok(x) = <$B>::new(v) else { return Some("invalid".into()) };
+            if let Some(s) = ts {
+                refstr_cmp!(bad, x, s, want);
+            }
+        }};
+    }
+    macro_rules! icomp {
+        ($B:ty) => {{
+            let Some(Ok(x)) = vs.map(<$B>::new) else { return Some("invalid".into()) };
+            if let Some(s) = ts {
+                refstr_cmp!(bad, x, s, want);
+            }
+        }};
+    }
+    match kind {
+        "uri" => ubytes!(Uri, UriBuf),
+        "uriRef" => ubytes!(UriRef, UriRefBuf),
+        "uriPath" => {
+            let Ok(x) = uri::Path::new(v) else { return Some("invalid".into()) };
+            bytes_cmp!(bad, x, t, want);
+            if let Some(s) = ts {
+                str_cmp!(bad, x, s, want);
+            }
+        }
+        "iri" => istr!(Iri, IriBuf),
+        "iriRef" => istr!(IriRef, IriRefBuf),
+        "iriPath" => istr!(iri::Path, iri::PathBuf),
+        "uriAuthority" => ucomp!(uri::Authority),
+        "uriUserInfo" => ucomp!(uri::UserInfo),
+        "uriHost" => ucomp!(uri::Host),
+        "uriQuery" => ucomp!(uri::Query),
+        "uriFragment" => ucomp!(uri::Fragment),
+        "iriAuthority" => icomp!(iri::Authority),
+        "iriUserInfo" => icomp!(iri::UserInfo),
+        "iriHost" => icomp!(iri::Host),
+        "iriQuery" => icomp!(iri::Query),
+        "iriFragment" => icomp!(iri::Fragment),
+        _ => return None,
+    }
+    Some(if bad.is_empty() { "ok".to_string() } else { format!("BAD:{}", bad.join(",")) })
+}
+
 // ---------------------------------------------------------------------------
 // data URLs (C18)
 
@@ -222,6 +449,43 @@ pub fn dataurl(b: &[u8]) -> Option<String> {
     use iref::uri::data::{DataUrl, DataUrlBuf};
     let br = DataUrl::new(b);
     let ow = DataUrlBuf::new(b.to_vec());
+    // every other route in and out must agree with the two constructors
+    {
+        use serde::de::value::{BorrowedStrDeserializer, Error as DeError, StringDeserializer};
+        use serde::Deserialize;
+        use std::borrow::Borrow;
+        use std::convert::TryFrom;
+        use std::str::FromStr;
+        let acc = br.is_ok();
+        let mut bad: Vec<&'static str> = Vec::new();
+        if let Ok(s) = std::str::from_utf8(b) {
+            let t = |r: Option<&[u8]>| match r { Some(x) => x == b, None => false };
+            chk!(bad, acc, "from_string", t(DataUrlBuf::from_string(s.to_string()).ok().as_ref().map(|v| v.as_str().as_bytes())));
+            chk!(bad, acc, "TryFrom<String>", t(DataUrlBuf::try_from(s.to_string()).ok().as_ref().map(|v| v.as_str().as_bytes())));
+            chk!(bad, acc, "FromStr", t(DataUrlBuf::from_str(s).ok().as_ref().map(|v| v.as_str().as_bytes())));
+            chk!(bad, acc, "TryFrom<&str>", t(<&DataUrl>::try_from(s).ok().map(|v| v.as_str().as_bytes())));
+            chk!(bad, acc, "de_borrowed_str", t(<&DataUrl>::deserialize(BorrowedStrDeserializer::<DeError>::new(s)).ok().map(|v| v.as_str().as_bytes())));
+            chk!(bad, acc, "de_string", t(DataUrlBuf::deserialize(StringDeserializer::<DeError>::new(s.to_string())).ok().as_ref().map(|v| v.as_str().as_bytes())));
+            let js = serde_json::to_string(s).unwrap();
+            chk!(bad, acc, "json_owned", t(serde_json::from_str::<DataUrlBuf>(&js).ok().as_ref().map(|v| v.as_str().as_bytes())));
+        }
+        if let (Ok(v), Ok(o)) = (&br, &ow) {
+            let js = serde_json::to_string(std::str::from_utf8(b).unwrap()).unwrap();
+            chk!(bad, true, "serialize", serde_json::to_string(*v).ok() == Some(js.clone()) && serde_json::to_string(o).ok() == Some(js));
+            let u1: &Uri = (*v).as_ref();
+            let u2: &Uri = o.as_ref();
+            let d1: &DataUrl = (*v).as_ref();
+            let d2: &DataUrl = o.as_ref();
+            let d3: &DataUrl = o.borrow();
+            let u3: &Uri = &**v;
+            chk!(bad, true, "as_ref/borrow/deref/as_uri", u1.as_bytes() == b && u2.as_bytes() == b && d1.as_str().as_bytes() == b
+                && d2.as_str().as_bytes() == b && d3.as_str().as_bytes() == b && u3.as_bytes() == b && v.as_uri().as_bytes() == b
+                && o.as_data_url().as_str().as_bytes() == b);
+        }
+        if !bad.is_empty() {
+            return Some(format!("ROUTES-DIFF {}", bad.join(",")));
+        }
+    }
     match (br, ow) {
         (Err(_), Err(e)) => Some(if e.0 == b { "0".into() } else { "ERRCHANGED".into() }),
         (Ok(_), Err(_)) => Some("ACCEPT-DIFF borrowed-only".into()),
@@ -263,7 +527,7 @@ fn guarded<F: FnOnce() -> String>(f: F) -> String {
 }
 
 macro_rules! pct_kind {
-    ($T:ty, $inp:expr, $b:expr) => {{
+    ($T:ty, $inp:expr, $b:expr, $own:expr) => {{
         let Ok(v) = <$T>::new($inp) else { return Some("invalid".into()) };
         let p = v.as_pct_str();
         let bytes = guarded(|| hex(&p.bytes().collect::<Vec<u8>>()));
@@ -274,7 +538,7 @@ macro_rules! pct_kind {
             let d = p.decode();
             b01(*p == *d.as_str()).to_string()
         });
-        let text = p.as_bytes() == $b;
+        let text = p.as_bytes() == $b && ($own)(v);
         Some(format!("bytes={} chars=[{}] len={} decode={} eqdecoded={} text={}", bytes, chars, len, dec, eqd, b01(text)))
     }};
 }
@@ -283,21 +547,21 @@ pub fn pct(fam: &str, kind: &str, b: &[u8]) -> Option<String> {
     use iref::{iri, uri};
     match fam {
         "u" => match kind {
-            "segment" => pct_kind!(uri::Segment, b, b),
-            "userinfo" => pct_kind!(uri::UserInfo, b, b),
-            "host" => pct_kind!(uri::Host, b, b),
-            "query" => pct_kind!(uri::Query, b, b),
-            "fragment" => pct_kind!(uri::Fragment, b, b),
+            "segment" => pct_kind!(uri::Segment, b, b, |_v: &uri::Segment| true),
+            "userinfo" => pct_kind!(uri::UserInfo, b, b, |v: &uri::UserInfo| v.to_owned().into_pct_string().as_bytes() == b),
+            "host" => pct_kind!(uri::Host, b, b, |v: &uri::Host| v.to_owned().into_pct_string().as_bytes() == b),
+            "query" => pct_kind!(uri::Query, b, b, |v: &uri::Query| v.to_owned().into_pct_string().as_bytes() == b),
+            "fragment" => pct_kind!(uri::Fragment, b, b, |v: &uri::Fragment| v.to_owned().into_pct_string().as_bytes() == b),
             _ => None,
         },
         "i" => {
             let Ok(s) = std::str::from_utf8(b) else { return Some("invalid".into()) };
             match kind {
-                "segment" => pct_kind!(iri::Segment, s, b),
-                "userinfo" => pct_kind!(iri::UserInfo, s, b),
-                "host" => pct_kind!(iri::Host, s, b),
-                "query" => pct_kind!(iri::Query, s, b),
-                "fragment" => pct_kind!(iri::Fragment, s, b),
+                "segment" => pct_kind!(iri::Segment, s, b, |_v: &iri::Segment| true),
+                "userinfo" => pct_kind!(iri::UserInfo, s, b, |v: &iri::UserInfo| v.to_owned().into_pct_string().as_bytes() == b),
+                "host" => pct_kind!(iri::Host, s, b, |v: &iri::Host| v.to_owned().into_pct_string().as_bytes() == b),
+                "query" => pct_kind!(iri::Query, s, b, |v: &iri::Query| v.to_owned().into_pct_string().as_bytes() == b),
+                "fragment" => pct_kind!(iri::Fragment, s, b, |v: &iri::Fragment| v.to_owned().into_pct_string().as_bytes() == b),
                 _ => None,
             }
         }
@@ -450,6 +714,12 @@ pub fn dispatch(t: &[&str]) -> Option<String> {
         "convert" => convert(t.get(1)?, &unhex(t.get(2)?)?),
         "routes" => routes(t.get(1)?, &unhex(t.get(2)?)?),
         "views" => views(t.get(1)?, &unhex(t.get(2)?)?),
+        "cross" => match *t.get(1)? {
+            "u" => cross_u(&unhex(t.get(2)?)?, &unhex(t.get(3)?)?),
+            "i" => cross_i(&unhex(t.get(2)?)?, &unhex(t.get(3)?)?),
+            _ => None,
+        },
+        "streq" => streq(t.get(1)?, &unhex(t.get(2)?)?, &unhex(t.get(3)?)?),
         "dataurl" => dataurl(&unhex(t.get(1)?)?),
         "pct" => pct(t.get(1)?, t.get(2)?, &unhex(t.get(3)?)?),
         "pctref" => match *t.get(1)? {
